@@ -325,6 +325,9 @@ class Exec(Ops):
             if fn == attr:
               return SV(U.field_sort(c.name, fn), U.acc(c.name, fn, b.t))
         raise OutsideSubset(f'{U} has no field {attr}')
+      hooks = getattr(U, 'attr_hooks', None)
+      if hooks and attr in hooks:
+        return hooks[attr](self, b)
       meth = self.record_method(b, attr)
       if meth is not None:
         return meth
@@ -337,16 +340,18 @@ class Exec(Ops):
         return SV(U.field_sort(c.name, attr), U.acc(c.name, attr, b.t))
       inner = self.unwrap(b)
       if isinstance(inner, _ObjCase):
-        self.oblige(False, 'safety:attr', attr)
-        raise PathEnd()
+        return self.getattr_(inner, attr)
       return self.getattr_(inner, attr)
     if isinstance(b, _ObjCase):
       U = b.v.sort
       for fn, _ in b.ctor.fields:
         if fn == attr:
           return SV(U.field_sort(b.ctor.name, fn), U.acc(b.ctor.name, fn, b.v.t))
-      self.oblige(False, 'safety:attr', attr)
-      raise PathEnd()
+      if getattr(U, 'closed', False):
+        # the class model lists every attribute of the real class: AttributeError
+        self.oblige(False, 'safety:attr', attr)
+        raise PathEnd()
+      raise OutsideSubset(f'attribute {attr!r} of {b.ctor.name} is not in the type model')
     if isinstance(b, SV) and getattr(b.sort, 'fields', None) is not None:
       return self.obj_getattr(b, attr)
     if isinstance(b, SV) and isinstance(b.sort, Opaque) and attr in b.sort.attrs:
@@ -505,6 +510,8 @@ class Exec(Ops):
   def e_Set(self, n, env):
     items = [self.eval(e, env) for e in n.elts]
     hint = self.type_hint(n)
+    if hint is None and items and all(isinstance(x, Lit) for x in items):
+      return LitSet(x.py for x in items)
     if hint is None:
       s0 = self.sort_of(items[0])
       if s0 is None:
@@ -585,6 +592,8 @@ class Exec(Ops):
           self.oblige(s.has(base.t, k.t), 'safety:key')
           self.assume(s.has(base.t, k.t))
         return SV(s.val, s.get(base.t, k.t))
+      if getattr(s, 'getitem', None):
+        return s.getitem(self, base, idx)
     raise OutsideSubset(f'subscript of {base!r}')
 
   def e_Lambda(self, n, env):
